@@ -2,6 +2,7 @@ package main
 
 import (
 	"bufio"
+	"context"
 	"fmt"
 	"io"
 	"os"
@@ -28,6 +29,33 @@ type Solver struct {
 	Bin      string
 	retrying bool
 	Retries  int
+	rec      *Recording // non-nil: the session is recorded for the cross-solver re-check
+}
+
+// Recording is the text of one solver session (whole paths only) with the verdict the primary solver gave to
+// each check-sat; crossCheck replays it through a second solver.
+type Recording struct {
+	Text    strings.Builder
+	Answers []string
+	cur     strings.Builder
+	curAns  []string
+	Full    bool
+	MaxB    int
+	MaxQ    int
+}
+
+func (rc *Recording) endPath() {
+	if rc.Full {
+		return
+	}
+	if rc.Text.Len()+rc.cur.Len() > rc.MaxB || len(rc.Answers)+len(rc.curAns) > rc.MaxQ {
+		rc.Full = true
+	} else {
+		rc.Text.WriteString(rc.cur.String())
+		rc.Answers = append(rc.Answers, rc.curAns...)
+	}
+	rc.cur.Reset()
+	rc.curAns = nil
 }
 
 var solverBin = "z3"
@@ -70,6 +98,10 @@ func (s *Solver) Begin() {
 }
 func (s *Solver) End() {
 	s.buf.WriteString("(pop 1)\n")
+	if s.rec != nil {
+		s.flush()
+		s.rec.endPath()
+	}
 }
 func (s *Solver) Assert(t *Term) {
 	s.pr.Define(t)
@@ -81,6 +113,9 @@ func (s *Solver) flush() {
 		io.WriteString(s.log, s.buf.String())
 	}
 	io.WriteString(s.in, s.buf.String())
+	if s.rec != nil && !s.rec.Full {
+		s.rec.cur.WriteString(s.buf.String())
+	}
 	s.buf.Reset()
 }
 
@@ -101,6 +136,9 @@ func (s *Solver) CheckAssuming(t *Term) string {
 		panic(pathAbort{"solver died: " + err.Error()})
 	}
 	line = strings.TrimSpace(line)
+	if s.rec != nil && !s.rec.Full {
+		s.rec.curAns = append(s.rec.curAns, line)
+	}
 	switch line {
 	case "sat":
 		s.NSat++
@@ -323,4 +361,70 @@ func (s *Solver) TermValue(assume, t *Term) (uint64, bool) {
 		}
 	}
 	panic(pathAbort{"TermValue: cannot parse " + cut(out, 200)})
+}
+
+// CrossResult is the outcome of replaying a recorded session through a second solver.
+type CrossResult struct {
+	Solver    string  `json:"solver"`
+	Queries   int     `json:"queries"`
+	Agree     int     `json:"agree"`
+	Disagree  int     `json:"disagree"`
+	Undecided int     `json:"undecided"` // either side answered unknown / timed out: not comparable
+	Errors    int     `json:"errors"`
+	Seconds   float64 `json:"seconds"`
+	Note      string  `json:"note,omitempty"`
+}
+
+// crossCheck replays the recorded session (the exact text the primary solver received) through bin and compares
+// the verdict of every check-sat.
+func crossCheck(rc *Recording, bin string, budget time.Duration) CrossResult {
+	cr := CrossResult{Solver: bin, Queries: len(rc.Answers)}
+	if len(rc.Answers) == 0 {
+		cr.Note = "nothing recorded"
+		return cr
+	}
+	t0 := time.Now()
+	ctx, cancel := context.WithTimeout(context.Background(), budget)
+	defer cancel()
+	cmd := exec.CommandContext(ctx, bin, solverArgs(bin)...)
+	txt := rc.Text.String()
+	if strings.Contains(bin, "cvc5") {
+		txt = "(set-logic ALL)\n" + txt
+	}
+	cmd.Stdin = strings.NewReader(txt + "(exit)\n")
+	out, _ := cmd.Output()
+	cr.Seconds = time.Since(t0).Seconds()
+	var got []string
+	for _, l := range strings.Split(string(out), "\n") {
+		l = strings.TrimSpace(l)
+		switch {
+		case l == "sat" || l == "unsat" || l == "unknown" || l == "timeout":
+			got = append(got, l)
+		case strings.HasPrefix(l, "(error"):
+			cr.Errors++
+		}
+	}
+	if ctx.Err() != nil {
+		cr.Note = fmt.Sprintf("second solver stopped after %v; %d of %d answers compared", budget, len(got), len(rc.Answers))
+	}
+	if len(got) == 0 {
+		cr.Note = "second solver gave no answer (not installed or died)"
+		cr.Errors++
+	}
+	for i, a := range rc.Answers {
+		if i >= len(got) {
+			break
+		}
+		b := got[i]
+		switch {
+		case (a != "sat" && a != "unsat") || (b != "sat" && b != "unsat"):
+			cr.Undecided++
+		case a == b:
+			cr.Agree++
+		default:
+			cr.Disagree++
+		}
+	}
+	cr.Queries = min(len(got), len(rc.Answers))
+	return cr
 }
